@@ -1343,6 +1343,21 @@ class Real(base.SimpleAsn1Type):
     typeId = base.SimpleAsn1Type.getTypeId()
 
     @staticmethod
+    def __dropFraction(value):
+        m, b, e = value
+
+        if m != m:
+            # not-a-number has no ASN.1 REAL representation
+            raise error.PyAsn1Error('Bad real value syntax: %s' % (value,))
+
+        # a fractional mantissa: move the binary point (exact)
+        while int(m) != m:
+            m *= 2
+            e -= 1
+
+        return int(m), b, e
+
+    @staticmethod
     def __normalizeBase10(value):
         m, b, e = value
 
@@ -1377,6 +1392,8 @@ class Real(base.SimpleAsn1Type):
                 )
             if value[1] == 10:
                 value = self.__normalizeBase10(value)
+            elif isinstance(value[0], float):
+                value = self.__dropFraction(value)
             return value
         elif isinstance(value, intTypes):
             return self.__normalizeBase10((value, 10, 0))
